@@ -130,6 +130,42 @@ pub fn family(quick: bool) -> Vec<OpeningHoursExpression> {
             }
         }
     }
+    // long expressions: 4..=20 canonical rules that fold into fewer (one rule per weekday half-day,
+    // per month, per year, per week), joined by `;` or `,`, alone and followed by a closing rule, a
+    // fallback rule or a non-canonical rule — whatever `normalize` does must not depend on how many
+    // rules it is given (a round-8 agent bounded the paving to 12 rules; all other families stop at 3)
+    {
+        let mods = al::modifiers();
+        let t = |h1, h2| vec![span(tfix(h1, 0), tfix(h2, 0))];
+        let days = [Mon, Tue, Wed, Thu, Fri, Sat, Sun];
+        let mut pools: Vec<Vec<RuleSequence>> = Vec::new();
+        pools.push(days.iter().flat_map(|d| [t(8, 12), t(14, 18), t(20, 22)].into_iter().map(move |sp| (*d, sp))).map(|(d, sp)| al::mk_rule(&DaySelector { weekday: vec![wd(d, d)], ..Default::default() }, &sp, &mods[0])).collect());
+        pools.push((1..=12u8).flat_map(|m| [t(10, 16), t(18, 20)].into_iter().map(move |sp| (m, sp))).map(|(m, sp)| al::mk_rule(&DaySelector { monthday: vec![md_month(m, m, None)], ..Default::default() }, &sp, &mods[0])).collect());
+        pools.push((2020..=2039u16).map(|y| al::mk_rule(&DaySelector { year: vec![yr(y, y, 1)], ..Default::default() }, &t(9, 17), &mods[2])).collect());
+        pools.push((1..=20u8).map(|w| al::mk_rule(&DaySelector { week: vec![wk(w, w, 1)], ..Default::default() }, &[], &mods[0])).collect());
+        let tails: Vec<Option<RuleSequence>> = vec![
+            None,
+            Some(al::mk_rule(&DaySelector { weekday: vec![wd(Sun, Sun)], ..Default::default() }, &[], &mods[1])),
+            Some(with_op(al::mk_rule(&DaySelector::default(), &[], &mods[2]), RuleOperator::Fallback)),
+            Some(noncanonical_rules()[1].clone()),
+        ];
+        for pool in &pools {
+            for n in 4..=pool.len().min(20) {
+                if quick && n > 6 && n % 2 == 0 && n != 12 && n != 14 {
+                    continue;
+                }
+                for op in [RuleOperator::Normal, RuleOperator::Additional] {
+                    for tail in &tails {
+                        let mut rules: Vec<RuleSequence> = pool[..n].iter().enumerate().map(|(i, r)| if i == 0 { r.clone() } else { with_op(r.clone(), op) }).collect();
+                        if let Some(tl) = tail {
+                            rules.push(tl.clone());
+                        }
+                        out.push(expr(rules));
+                    }
+                }
+            }
+        }
+    }
     if !quick {
         // three rules: a reduced set (every third rule) in all orders and separator pairs
         let r3: Vec<&RuleSequence> = r.iter().step_by(4).collect();
